@@ -1,19 +1,19 @@
 (* C03 — receiver containment: an untrusted sender cannot touch anything outside dest.
    This file contains only the property theorems (closed by [exact]), their [Print Assumptions]
    and non-vacuity examples closed by [vm_compute]; models are in Model/ (Fs.v: the file system,
-   DiskWriterFs.v: DiskWriter.HandleChange and the receive loop as sequences of system calls),
-   proofs in Proofs/ (FsP FsReachP FsFrameP FsSysP FsTreeP DwP RecvP OldListP RecvOldP FsWfP
-   C03P RejectP).
+   DiskWriterFs.v: DiskWriter.HandleChange, the receive loop and ReceiveOpt.Filter as sequences of
+   system calls, RecvMeta.v: ReceiveOpt.MetadataOnly — which entries reach the walker, and the
+   epilogue that writes dest/.fsutil-metadata), proofs in Proofs/ (FsP FsReachP FsFrameP FsSysP
+   FsTreeP DwP RecvP OldListP RecvOldP RecvMetaP FsWfP C03P RejectP).
 
-   receiver_contained is the full statement of DESIGN section 4: for every hostile packet list,
-   every pre-existing destination (symlinks to anywhere, hard links shared with the outside,
-   special files, ...), both settings of ReceiveOpt.Merge (merge = true: the old content of the
-   destination is not walked, every entry of the stream goes to the disk writer, nothing is
-   deleted; merge = false: the old content is walked first and diffed against the stream,
-   entries the stream does not name are removed) and every prefix j of the effects. *)
+   receiver_contained is the full statement of DESIGN section 4 for Receive with its options:
+   every hostile packet list, every pre-existing destination (symlinks to anywhere, hard links
+   shared with the outside, special files, an entry of any kind under the name .fsutil-metadata),
+   both settings of ReceiveOpt.Merge, every MetadataOnly selector (or none), every admissible
+   Filter (or none) and every prefix j of the effects. *)
 From Coq Require Import List NArith Bool String Ascii.
-From FS Require Import Sx Model.Path Model.Stat Model.Validator Model.Fs Model.DiskWriterFs Model.RecvSpec.
-From FS Require Import Proofs.FsP Proofs.FsReachP Proofs.RecvP Proofs.FsWfP Proofs.C03P Proofs.RejectP.
+From FS Require Import Sx Model.Path Model.Stat Model.Validator Model.Fs Model.DiskWriterFs Model.RecvMeta Model.RecvSpec.
+From FS Require Import Proofs.ValidatorP Proofs.FsP Proofs.FsReachP Proofs.RecvP Proofs.FsWfP Proofs.C03P Proofs.RejectP.
 Import ListNotations.
 Open Scope N_scope.
 
@@ -24,17 +24,46 @@ Open Scope N_scope.
    also for inodes that have a second name inside D.  (Link count and ctime are not part of the
    model's inode record: the correspondence oracle compares them too, except for inodes that
    had a name inside D before the run.)
-   Hypotheses: [wf D f] — the part of f inside D is a well-formed tree (names are single
-   non-empty components other than "." / "..", unique per directory; one entry per directory
-   inode; D is a directory and not its own descendant; allocation counter above all inode
-   numbers) — the temporary names ".tmp.<n>" the writer may use are well-formed, not in use
-   inside D and never a component of a path the sender names. *)
+   Hypotheses:
+   [wf D f] — the part of f inside D is a well-formed tree (names are single non-empty components
+     other than "." / "..", unique per directory; one entry per directory inode; D is a directory
+     and not its own descendant; allocation counter above all inode numbers);
+   the temporary names ".tmp.<n>" the writer may use are well-formed, not in use inside D and
+     never a component of a path the sender names ([clean_packet], first part);
+   [filter_ok fl] — what the Filter does to its copy of the stat keeps type bits and link name,
+     and a path it rejects it rejects with everything below it (a caller obligation: see
+     receiver_contained_any_filter_refuted);
+   no transferred hard link names a path the Filter rejects ([clean_packet], second part; empty
+     without a Filter).  This one depends on the stream: with a rejecting Filter the real
+     receiver does link such an entry to whatever dest/<Linkname> resolves to — known finding
+     filter-rejected-hardlink-source. *)
 Theorem receiver_contained :
-  forall (f : fs) (root D : N) (dl merge : bool) (tmps : list bytes) (pks : list packet) (j : nat),
+  forall (fl : rfilter) (mo : option (stat -> bool)) (f : fs) (root D : N) (dl merge : bool) (tmps : list bytes)
+         (pks : list packet) (j : nat),
+    filter_ok fl ->
     wf D f -> (forall t, tmpname tmps t -> okname t) -> tmp_unused D f tmps ->
-    Forall (clean_packet tmps) pks ->
-    outside_unchanged D f (recv_fs_prefix f root D dl merge tmps pks j).
-Proof. exact receiver_contained_proof. Qed.
+    Forall (clean_packet tmps fl) pks ->
+    outside_unchanged D f (recv_fs_prefix_opt f root D dl merge mo fl tmps pks j).
+Proof. exact receiver_contained_opt. Qed.
+
+(* the filters of the correspondence run (reject the listed paths and everything below, shift
+   uid / gid) are admissible, and so is no filter *)
+Theorem subtree_filters_admissible : forall ps ua ga, filter_ok (subtree_filter ps ua ga).
+Proof. exact subtree_filter_ok. Qed.
+Theorem no_filter_admissible : filter_ok no_filter.
+Proof. exact no_filter_ok. Qed.
+
+(* Without "rejected with everything below" the statement is FALSE of the model and of the code:
+   dest holds d -> /out; the Filter rejects exactly "d"; STAT d (directory), STAT d/x (file).
+   The change for d is skipped, the symlink stays, and d/x is created through it: /out gets an
+   entry x.  (Replayed on the real code through the harness, see props/C03.json.) *)
+Theorem receiver_contained_any_filter_refuted :
+  exists (fl : rfilter) (f : fs) (root D : N) (tmps : list bytes) (pks : list packet) (j : nat),
+    (forall s, st_mode (f_map fl s) = st_mode s) /\ (forall s, st_linkname (f_map fl s) = st_linkname s)
+    /\ wf D f /\ (forall t, tmpname tmps t -> okname t) /\ tmp_unused D f tmps
+    /\ Forall (clean_packet tmps fl) pks
+    /\ ~ outside_unchanged D f (recv_fs_prefix_opt f root D false true None fl tmps pks j).
+Proof. exact receiver_contained_any_filter_refuted_proof. Qed.
 
 (* A stream that the stream-only specification (Model/RecvSpec.v) calls bad at packet b — a STAT
    whose path is not a clean relative path inside the root, not strictly after every earlier path,
@@ -43,24 +72,27 @@ Proof. exact receiver_contained_proof. Qed.
    or before b (error return, or the "closed channel" panic when a STAT follows the terminator),
    it never succeeds, and the file system is the one left by the packets before b: nothing of the
    offending packet or of any later one is applied.  No hypothesis on the file system, the
-   destination, Merge or the temporary names. *)
+   destination, Merge or the temporary names; any Filter whose stat copy keeps type bits and
+   link name (MetadataOnly = nil: for metadata transfers the statement with [spec_bad_m] is
+   checked by the correspondence run only, see props/C03.json). *)
 Theorem bad_stream_rejected :
+  forall (fl : rfilter),
+    (forall s, st_mode (f_map fl s) = st_mode s) -> (forall s, st_linkname (f_map fl s) = st_linkname s) ->
   forall (f : fs) (root D : N) (dl merge : bool) (tmps : list bytes) (pks : list packet) (b : nat),
     spec_bad pks sspec_init 0 = Some b ->
-    let st := recv_fs f root D dl merge tmps pks in
+    let st := recv_run_f fl f root D dl merge tmps pks None in
     (exists k, (k <= b)%nat /\ (r_out st = Failed k \/ r_out st = Panicked k))
     /\ recv_succeeds st = false
-    /\ r_fs st = r_fs (recv_fs f root D dl merge tmps (firstn b pks)).
-Proof. exact bad_stream_rejected_proof. Qed.
+    /\ r_fs st = r_fs (recv_run_f fl f root D dl merge tmps (firstn b pks) None).
+Proof. exact bad_stream_rejected_f. Qed.
 
 Print Assumptions receiver_contained.
+Print Assumptions subtree_filters_admissible.
+Print Assumptions no_filter_admissible.
+Print Assumptions receiver_contained_any_filter_refuted.
 Print Assumptions bad_stream_rejected.
 
 (* ---- non-vacuity: a hostile destination and a hostile stream inside the hypotheses ---- *)
-Fixpoint bs (s : string) : bytes :=
-  match s with EmptyString => [] | String a r => N_of_ascii a :: bs r end.
-
-Definition run1 (x : fs * result) : fs := fst x.
 (* /out/f "O:f" ; /w/dest with l -> /out (symlink), m -> ../../out/f (symlink), a (file) *)
 Definition ex_fs : fs :=
   let c := ctx_init in
@@ -90,7 +122,7 @@ Definition ex_pks : list packet :=
 Definition ex_run : rstate := recv_fs ex_fs 1 ex_D false true [] ex_pks.
 
 (* the hypotheses of the theorem hold for this case *)
-Example example_in_domain : ex_D = 5 /\ domain_b 8 ex_fs ex_D [] ex_pks = true.
+Example example_in_domain : ex_D = 5 /\ domain_b 8 ex_fs ex_D [] no_filter ex_pks = true.
 Proof. vm_compute. split; reflexivity. Qed.
 
 (* the specification calls the stream bad at packet 6 (the path "..") *)
@@ -128,4 +160,56 @@ Example example_nomerge :
   /\ rwalk ex_fs ex_D [bs "a"] = Some 8 /\ rwalk f' ex_D [bs "a"] = None
   /\ (match rwalk f' ex_D [bs "l"] with Some i => is_dir f' i | None => false end) = true
   /\ map (get f') [1; 2; 3; 4] = map (get ex_fs) [1; 2; 3; 4].
+Proof. vm_compute. repeat split; reflexivity. Qed.
+
+(* a metadata transfer into a destination that holds .fsutil-metadata -> /out/f (a symlink that
+   leaves dest): the selector transfers only "l/g"; its pending parent l is handed to the walker
+   first (the symlink l becomes a directory), m is only recorded and stays the old symlink; the
+   epilogue removes the symlink before it writes the listing: /out/f keeps its bytes *)
+Definition ex_fs3 : fs := run1 (sys_symlink ctx_init ex_fs (bs "/out/f") (bs "/w/dest/.fsutil-metadata")).
+Definition ex_sel (s : stat) : bool := bytes_eqb (st_path s) (bs "l/g").
+Definition ex_pks3 : list packet :=
+  [ PStat (Some (mkst "l" (ModeDir + 493) "" []));
+    PStat (Some (mkst "l/g" 420 "" []));
+    PData 1 (bs "new"); PData 1 [];
+    PStat (Some (mkst "m" (ModeSymlink + 511) "/out/d" []));
+    PStat None; PFin ].
+Definition ex_run3 : rstate := recv_fs_opt ex_fs3 1 ex_D false true (Some ex_sel) no_filter [] ex_pks3.
+Example example_meta_in_domain : domain_b 8 ex_fs3 ex_D [] no_filter ex_pks3 = true.
+Proof. vm_compute. reflexivity. Qed.
+Example example_meta :
+  let f' := r_fs ex_run3 in
+  recv_class ex_run3 = 0
+  /\ (match rwalk ex_fs3 ex_D [listing_name] with Some i => is_link ex_fs3 i | None => false end) = true
+  /\ (match rwalk f' ex_D [listing_name] with
+      | Some i => match get f' i with Some {| i_kind := KFile d |} => negb (is_nil d) | _ => false end
+      | None => false end) = true
+  /\ (match rwalk f' ex_D [bs "l"; bs "g"] with
+      | Some i => match get f' i with Some {| i_kind := KFile d |} => Some d | _ => None end
+      | None => None end) = Some (bs "new")
+  /\ (match rwalk f' ex_D [bs "m"] with
+      | Some i => match get f' i with Some {| i_kind := KLink t |} => Some t | _ => None end
+      | None => None end) = Some (bs "../../out/f")
+  /\ map (get f') [1; 2; 3; 4] = map (get ex_fs3) [1; 2; 3; 4].
+Proof. vm_compute. repeat split; reflexivity. Qed.
+
+(* a Filter that rejects l and everything below it: the symlink l stays, nothing is written
+   through it; a hard link to l/g is outside the hypotheses (clean_packet) *)
+Definition ex_fl : rfilter := subtree_filter [bs "l"] 100000 100000.
+Definition ex_pks4 : list packet :=
+  [ PStat (Some (mkst "l" (ModeDir + 493) "" []));
+    PStat (Some (mkst "l/g" 420 "" []));
+    PStat (Some (mkst "q" 420 "" [])); PData 2 (bs "Q"); PData 2 [];
+    PStat None; PFin ].
+Definition ex_run4 : rstate := recv_fs_opt ex_fs 1 ex_D false true None ex_fl [] ex_pks4.
+Example example_filter :
+  let f' := r_fs ex_run4 in
+  domain_b 8 ex_fs ex_D [] ex_fl ex_pks4 = true
+  /\ recv_class ex_run4 = 0
+  /\ (match rwalk f' ex_D [bs "l"] with Some i => is_link f' i | None => false end) = true
+  /\ (match rwalk f' ex_D [bs "q"] with
+      | Some i => match get f' i with Some n => Some (m_uid (i_meta n)) | None => None end
+      | None => None end) = Some 101000
+  /\ map (get f') [1; 2; 3; 4] = map (get ex_fs) [1; 2; 3; 4]
+  /\ domain_b 8 ex_fs ex_D [] ex_fl [PStat (Some (mkst "l/g" 420 "" [])); PStat (Some (mkst "q" 420 "l/g" []))] = false.
 Proof. vm_compute. repeat split; reflexivity. Qed.
